@@ -1,6 +1,7 @@
 package engine
 
 import (
+	"go/token"
 	"fmt"
 	"go/types"
 	"sort"
@@ -143,8 +144,31 @@ func (e *Exec) enterLoop(st *State, h *ssa.BasicBlock, prev *ssa.BasicBlock, li 
 			}
 		}
 	}
+	// inferred invariants of counting loops: i := c; ...; i += k (k > 0)  gives  i >= c
+	counters := counterPhis(h, li)
+	autoInv := func(s *State, kind string, assume bool) {
+		f := s.top()
+		for _, cp := range counters {
+			v, ok := f.env[cp.phi]
+			if !ok || len(v.T) != 1 {
+				continue
+			}
+			w := bvWidth(shape(cp.phi.Type())[0].Sort)
+			g := app("bvsge", v.T[0], bvLitI(cp.lo, w))
+			if assume {
+				s.assume(g)
+				continue
+			}
+			pre := ""
+			if f.fn != e.fn {
+				pre = FuncName(f.fn) + ":"
+			}
+			e.oblige(s, kind, fmt.Sprintf("%sloop%d/auto:%s>=%d", pre, li.ord, cp.phi.Comment, cp.lo), nil, fmt.Sprintf("inferred loop invariant: %s >= %d", cp.phi.Comment, cp.lo), g, h.Instrs[0].Pos())
+		}
+	}
 	if back {
 		bindPhis(st)
+		autoInv(st, "inv-preserved", false)
 		evalInvs(st, "inv-preserved")
 		// lockset must be unchanged around the loop
 		return false
@@ -165,6 +189,7 @@ func (e *Exec) enterLoop(st *State, h *ssa.BasicBlock, prev *ssa.BasicBlock, li 
 		e.snapshot(st, hl.Term)
 	}
 	f := st.top()
+	autoInv(st, "", true)
 	for _, c := range invs {
 		ctx := &evalCtx{st: st, fr: f, scope: map[string]Val{}, entryScope: e.entryParams()}
 		g, err := e.evalBool(ctx, c.Expr)
@@ -174,6 +199,63 @@ func (e *Exec) enterLoop(st *State, h *ssa.BasicBlock, prev *ssa.BasicBlock, li 
 		st.assume(g)
 	}
 	return true
+}
+
+type counterPhi struct {
+	phi *ssa.Phi
+	lo  int64
+}
+
+// counterPhis finds header phis of signed integer type that start at a
+// constant and are only ever increased by a positive constant in the loop.
+func counterPhis(h *ssa.BasicBlock, li *loopInfo) []counterPhi {
+	var out []counterPhi
+	for _, in := range h.Instrs {
+		phi, ok := in.(*ssa.Phi)
+		if !ok {
+			break
+		}
+		if !isIntType(phi.Type()) || isUnsigned(phi.Type()) || phi.Comment == "" {
+			continue
+		}
+		okAll, haveInit := true, false
+		var lo int64
+		for j, p := range h.Preds {
+			ev := phi.Edges[j]
+			if li.blocks[p] {
+				bo, ok := ev.(*ssa.BinOp)
+				if !ok || bo.Op != token.ADD {
+					okAll = false
+					break
+				}
+				var other ssa.Value
+				if bo.X == ssa.Value(phi) {
+					other = bo.Y
+				} else if bo.Y == ssa.Value(phi) {
+					other = bo.X
+				} else {
+					okAll = false
+					break
+				}
+				c, ok := other.(*ssa.Const)
+				if !ok || c.Value == nil || c.Int64() <= 0 {
+					okAll = false
+					break
+				}
+			} else {
+				c, ok := ev.(*ssa.Const)
+				if !ok || c.Value == nil || haveInit && c.Int64() != lo {
+					okAll = false
+					break
+				}
+				lo, haveInit = c.Int64(), true
+			}
+		}
+		if okAll && haveInit {
+			out = append(out, counterPhi{phi, lo})
+		}
+	}
+	return out
 }
 
 func hasTrivialLoop(li *loopInfo) bool { return false }
